@@ -158,6 +158,25 @@ def _rw_debug_assert_drop(t: OText):
     return count, touched
 
 
+def _rw_lazy_static_drop(t: OText):
+    """Rlazy: `lazy_static! { ... }` blocks dropped (the statics they define are replaced by wrapper functions with
+    assumed contracts, declared by R14 rewrites at their use sites); logged."""
+    count = 0
+    touched = []
+    pos = 0
+    while True:
+        hay = rscan.mask(t.s)
+        m = re.compile(r'\blazy_static!\s*\{').search(hay, pos)
+        if not m:
+            break
+        cl = rscan.match_close(hay, m.end() - 1)
+        touched.append((t.o[m.start()], t.s[m.start():cl + 1][:80] + ' ...', ''))
+        t.replace(m.start(), cl + 1, '')
+        pos = m.start()
+        count += 1
+    return count, touched
+
+
 BUILTIN = {
     # R6: for (I, X) in E.iter().enumerate() {
     'R6': (r'\bfor\s*\(\s*(\w+)\s*,\s*(\w+)\s*\)\s+in\s+([^{};]+?)\.iter\(\)\.enumerate\(\)\s*\{',
@@ -191,6 +210,8 @@ def apply_rw(t: OText, rule, count, custom=None):
         n, touched = _rw_debug_assert(t)
     elif rule == 'R3d':
         n, touched = _rw_debug_assert_drop(t)
+    elif rule == 'Rlazy':
+        n, touched = _rw_lazy_static_drop(t)
     elif rule in BUILTIN:
         rx, repl = BUILTIN[rule]
         n, touched = _rw_regex(t, rx, repl)
@@ -316,6 +337,23 @@ def _do_extract(res, repo_root, head, block, canary, tpl_path):
         raise ExtractError("%s: %s" % (file_rel, e))
     t = OText.from_source(src, start, end)
     ds = _parse_block(block, tpl_path)
+    # optional overlay lines:  `#[if_ident(NAME)] <text>` is kept (without the marker) only if the identifier NAME occurs in the
+    # extracted source text; invariants about a helper local thus disappear with the local instead of breaking the extraction
+    _masked_src = rscan.mask(src[start:end])
+    for d in ds:
+        if d.kind in ('rw',):
+            continue
+        newp = []
+        for ln in d.payload:
+            mo = re.match(r'^(\s*)#\[if_ident\((\w+)\)\]\s?(.*)$', ln)
+            if mo:
+                if re.search(r'\b%s\b' % re.escape(mo.group(2)), _masked_src):
+                    newp.append(mo.group(1) + mo.group(3))
+                else:
+                    res.dropped_optional = getattr(res, 'dropped_optional', []) + ['%s :: %s: optional overlay line about `%s` dropped' % (file_rel, selector, mo.group(2))]
+            else:
+                newp.append(ln)
+        d.payload = newp
     ex = Extracted()
     ex.file, ex.selector = file_rel, selector
     ex.is_twin = canary
